@@ -86,6 +86,19 @@ def _event_ref(t: T) -> Optional[Tuple[str, T]]:
 LOOKUP_METHODS = ("parse_vnode", "parse_vnodes")
 
 
+def strip_conditions(t: T) -> T:
+    """The term with every ``ite`` condition replaced by a constant (value dependence only, no control dependence)."""
+    def go(x):
+        if isinstance(x, T):
+            if x.op == "ite":
+                return T("ite", (const(True), go(x.a[1]), go(x.a[2])))
+            return T(x.op, go(x.a))
+        if isinstance(x, tuple):
+            return tuple(go(e) for e in x)
+        return x
+    return go(t)
+
+
 def classify(t: T) -> Set[tuple]:
     """Set of provenance atoms of a term.
 
